@@ -729,10 +729,277 @@ fn eval_status_ans(nb: Option<u8>, pushes: &[(u8, u32)], nb_after: Option<u8>) -
             }
         }
     }
+    // the same command followed by two others in one stream: it must parse to the same items and payload
+    // bytes, and the followers must come out after it (variable-length framing)
+    let mut stream = bytes.clone();
+    stream.extend([0x03, 0x06, 0x00, 0x02, 0x01]);
+    let alone: Option<(Vec<(u8, u32)>, Vec<u8>)> = match parse_uplink_multicast_commands(&bytes).next() {
+        Some(Ok(UplinkRemoteSetup::McGroupStatusAns(p))) => Some((p.item_iterator().map(|i| (i.mc_group_id(), i.mc_addr().value())).collect(), p.bytes().to_vec())),
+        _ => None,
+    };
+    let distinct_groups = items.iter().map(|x| x.0).collect::<std::collections::HashSet<_>>().len() == items.len();
+    if let Some((items_alone, bytes_alone)) = alone
+        && distinct_groups
+    {
+        let mut it = parse_uplink_multicast_commands(&stream);
+        let first = it.next();
+        let rest: Vec<bool> = it.map(|x| x.is_ok()).collect();
+        match first {
+            Some(Ok(UplinkRemoteSetup::McGroupStatusAns(p))) => {
+                let got: Vec<(u8, u32)> = p.item_iterator().map(|i| (i.mc_group_id(), i.mc_addr().value())).collect();
+                if got != items_alone || p.bytes() != &bytes_alone[..] || rest != vec![true, true] {
+                    out.push((
+                        "C19|McGroupStatusAns|in-a-stream|differs-from-alone".into(),
+                        format!("{ops}: alone items {items_alone:?} ({} payload bytes); followed by 03 06 00 02 01: items {got:?} ({} payload bytes), followers parsed {rest:?}", bytes_alone.len(), p.bytes().len()),
+                    ));
+                }
+            }
+            other => out.push(("C19|McGroupStatusAns|in-a-stream|does-not-parse".into(), format!("{ops}: {} parsed as {other:?}", hex(&stream)))),
+        }
+    }
+    out
+}
+
+
+// ---- validated constructors (`Payload::new`, `Frequency::new`, `ChannelMask::new`): the bytes a builder
+// produced (without the CID) must come back as the same command; shorter input is refused; longer input
+// is refused or cut to the command and never leaks into it
+/// kind 0: McGroupStatusAns (x = group mask | tail << 8); 1: Frequency (x = 24-bit value | len << 24);
+/// 2: ChannelMask (x = 16-bit mask | len << 16); 3: fixed-length derive-generated payloads
+/// (x = selector | delta+1 << 8 | value << 16); 4: payloads that run to the end of the frame (x = len)
+pub fn eval_ctor(kind: usize, x: u64) -> Vec<(String, String)> {
+    let mut out = vec![];
+    match kind {
+        0 => {
+            let mask = (x & 0xF) as u8;
+            let tail = ((x >> 8) & 0xF) as usize;
+            let r = catch(|| {
+                let mut c = McGroupStatusAnsCreator::new();
+                c.nb_total_groups(mask.count_ones() as u8);
+                let mut items = vec![];
+                for g in 0..4u8 {
+                    if mask & (1 << g) != 0 {
+                        let a = 0xC0DE_0000 + g as u32;
+                        let _ = c.push(g, McAddr::from_value(a));
+                        items.push((g, a));
+                    }
+                }
+                let built = c.build().to_vec();
+                let payload = built[1..].to_vec();
+                let mut data = payload.clone();
+                data.extend(std::iter::repeat_n(0xEE, tail));
+                let full = McGroupStatusAnsPayload::new(&data).ok().map(|p| (p.bytes().to_vec(), p.len(), p.item_iterator().map(|i| (i.mc_group_id(), i.mc_addr().value())).collect::<Vec<_>>(), p.ans_group_mask()));
+                let short = McGroupStatusAnsPayload::new(&payload[..payload.len() - 1]).is_ok();
+                (items, payload, full, short)
+            });
+            match r {
+                Err(p) => out.push(("C19|ctor|McGroupStatusAnsPayload::new|panic".into(), format!("mask {mask:#x} tail {tail}: {p}"))),
+                Ok((items, payload, full, short)) => {
+                    match full {
+                        None => out.push(("C19|ctor|McGroupStatusAnsPayload::new|built-command-refused".into(), format!("mask {mask:#x}: payload {} + {tail} trailing bytes refused", hex(&payload)))),
+                        Some((bytes, len, got, m)) => {
+                            if bytes != payload || len != payload.len() || got != items || m != mask {
+                                out.push((
+                                    "C19|ctor|McGroupStatusAnsPayload::new|round-trip".into(),
+                                    format!("mask {mask:#x}: built payload {} (+{tail} trailing bytes) came back as {} (len() {len}), items {got:?}, expected {items:?}", hex(&payload), hex(&bytes)),
+                                ));
+                            }
+                        }
+                    }
+                    if short {
+                        out.push(("C19|ctor|McGroupStatusAnsPayload::new|truncated-command-accepted".into(), format!("mask {mask:#x}: {} minus its last byte was accepted", hex(&payload))));
+                    }
+                }
+            }
+        }
+        1 => {
+            let v = x & 0xFF_FFFF;
+            let len = ((x >> 24) & 7) as usize;
+            let buf = [v as u8, (v >> 8) as u8, (v >> 16) as u8, 0x50, 0xAA, 0x55, 0xFF];
+            let r = catch(|| {
+                lorawan::types::Frequency::new(&buf[..len]).map(|f| {
+                    let bytes = f.as_ref().to_vec();
+                    let val = if bytes.len() >= 3 { Some(f.value()) } else { None };
+                    // a frequency taken from a constructor must be usable in a builder
+                    let set = catch(|| {
+                        let mut c = NewChannelReqCreator::new();
+                        c.set_channel_index(3).set_frequency(f);
+                        let b = c.build().to_vec();
+                        b[2..5].to_vec()
+                    });
+                    (bytes, val, set)
+                })
+            });
+            match r {
+                Err(p) => out.push(("C19|ctor|Frequency::new|panic".into(), format!("{len} bytes: {p}"))),
+                Ok(None) => {
+                    if len == 3 {
+                        out.push(("C19|ctor|Frequency::new|exact-length-refused".into(), format!("value {v:#x}")));
+                    }
+                }
+                Ok(Some((bytes, val, set))) => {
+                    if len < 3 {
+                        out.push(("C19|ctor|Frequency::new|short-input-accepted".into(), format!("{len} bytes")));
+                    } else if bytes != buf[..3] || val != Some(v as u32 * 100) {
+                        out.push((
+                            format!("C19|ctor|Frequency::new|{}", if len == 3 { "round-trip" } else { "long-input-not-cut-to-the-field" }),
+                            format!("{len} bytes {}: as_ref {} value {val:?}", hex(&buf[..len]), hex(&bytes)),
+                        ));
+                    } else {
+                        match set {
+                            Err(p) => out.push(("C19|ctor|Frequency::new|panic-in-setter".into(), p)),
+                            Ok(b) => {
+                                if b != buf[..3] {
+                                    out.push(("C19|ctor|Frequency::new|setter-round-trip".into(), hex(&b)));
+                                }
+                            }
+                        }
+                    }
+                }
+            }
+        }
+        2 => {
+            let len = ((x >> 16) & 0xF) as usize;
+            let buf = [x as u8, (x >> 8) as u8, 0x11, 0x22, 0x33, 0x44, 0x55, 0x66, 0x77, 0x88, 0x99, 0xAB];
+            macro_rules! cm {
+                ($n:literal) => {{
+                    let r = catch(|| lorawan::types::ChannelMask::<$n>::new(&buf[..len]).ok().map(|m| m.as_ref().to_vec()));
+                    match r {
+                        Err(p) => out.push((format!("C19|ctor|ChannelMask<{}>::new|panic", $n), format!("{len} bytes: {p}"))),
+                        Ok(None) => {
+                            if len >= $n {
+                                out.push((format!("C19|ctor|ChannelMask<{}>::new|sufficient-input-refused", $n), format!("{len} bytes")));
+                            }
+                        }
+                        Ok(Some(b)) => {
+                            if len < $n {
+                                out.push((format!("C19|ctor|ChannelMask<{}>::new|short-input-accepted", $n), format!("{len} bytes")));
+                            } else if b != buf[..$n] {
+                                out.push((format!("C19|ctor|ChannelMask<{}>::new|round-trip", $n), format!("{} -> {}", hex(&buf[..len]), hex(&b))));
+                            }
+                        }
+                    }
+                }};
+            }
+            cm!(2);
+            cm!(9);
+        }
+        3 => {
+            let sel = (x & 0xFF) as usize;
+            let delta = ((x >> 8) & 0xFF) as i64 - 1;
+            let v = x >> 16;
+            macro_rules! fixed {
+                ($name:literal, $built:expr, $ty:ty, $read:expr) => {{
+                    let built: Vec<u8> = $built;
+                    let payload = &built[1..];
+                    let mut data = payload.to_vec();
+                    data.extend([0xEE, 0xEE]);
+                    let n = (payload.len() as i64 + delta).clamp(0, data.len() as i64) as usize;
+                    let r = catch(|| <$ty>::new(&data[..n]).ok().map(|p| (p.bytes().to_vec(), $read(&p))));
+                    match r {
+                        Err(p) => out.push((format!("C19|ctor|{}Payload::new|panic", $name), format!("{n} of {} bytes: {p}", payload.len()))),
+                        Ok(None) => {
+                            if n == payload.len() {
+                                out.push((format!("C19|ctor|{}Payload::new|built-command-refused", $name), hex(payload)));
+                            }
+                        }
+                        Ok(Some((bytes, got))) => {
+                            if n < payload.len() {
+                                out.push((format!("C19|ctor|{}Payload::new|truncated-command-accepted", $name), format!("{n} of {} bytes", payload.len())));
+                            } else if bytes != payload || got != v {
+                                out.push((format!("C19|ctor|{}Payload::new|round-trip", $name), format!("{} (+{} extra) came back as {} value {got:#x} expected {v:#x}", hex(payload), n - payload.len(), hex(&bytes))));
+                            }
+                        }
+                    }
+                }};
+            }
+            match sel {
+                0 => fixed!(
+                    "LinkADRReq",
+                    {
+                        let mut c = LinkADRReqCreator::new();
+                        let _ = c.set_data_rate((v & 0xF) as u8);
+                        let _ = c.set_tx_power(((v >> 4) & 0xF) as u8);
+                        c.set_channel_mask([(v >> 8) as u8, (v >> 16) as u8]);
+                        c.set_redundancy((v >> 24) as u8);
+                        c.build().to_vec()
+                    },
+                    lorawan::maccommands::LinkADRReqPayload,
+                    |p: &lorawan::maccommands::LinkADRReqPayload| {
+                        let m = p.channel_mask();
+                        p.data_rate() as u64 | (p.tx_power() as u64) << 4 | (m.as_ref()[0] as u64) << 8 | (m.as_ref()[1] as u64) << 16 | (p.redundancy().raw_value() as u64) << 24
+                    }
+                ),
+                1 => fixed!(
+                    "NewChannelReq",
+                    {
+                        let mut c = NewChannelReqCreator::new();
+                        c.set_channel_index(v as u8);
+                        let fbytes = fb(v >> 8);
+                        c.set_frequency(lorawan::types::Frequency::new(&fbytes).unwrap());
+                        c.set_data_rate_range((v >> 32) as u8);
+                        c.build().to_vec()
+                    },
+                    lorawan::maccommands::NewChannelReqPayload,
+                    |p: &lorawan::maccommands::NewChannelReqPayload| p.channel_index() as u64 | ((p.frequency().value() / 100) as u64) << 8 | (p.data_rate_range().map(|r| r.raw_value()).unwrap_or(0xFF) as u64) << 32
+                ),
+                2 => fixed!(
+                    "DevStatusAns",
+                    {
+                        let mut c = DevStatusAnsCreator::new();
+                        c.set_battery(v as u8);
+                        let _ = c.set_margin((((v >> 8) & 0x3F) as i8) - 32);
+                        c.build().to_vec()
+                    },
+                    lorawan::maccommands::DevStatusAnsPayload,
+                    |p: &lorawan::maccommands::DevStatusAnsPayload| p.battery() as u64 | (((p.margin() as i64 + 32) as u64) & 0x3F) << 8
+                ),
+                _ => fixed!(
+                    "RXTimingSetupReq",
+                    {
+                        let mut c = RXTimingSetupReqCreator::new();
+                        let _ = c.set_delay((v & 0xF) as u8);
+                        c.build().to_vec()
+                    },
+                    lorawan::maccommands::RXTimingSetupReqPayload,
+                    |p: &lorawan::maccommands::RXTimingSetupReqPayload| p.delay() as u64
+                ),
+            }
+        }
+        _ => {
+            let len = (x & 0x1FF) as usize;
+            let data: Vec<u8> = (0..len).map(|i| (i as u8).wrapping_mul(7).wrapping_add(3)).collect();
+            let r = catch(|| {
+                (
+                    EchoIncPayloadReqPayload::new(&data).ok().map(|p| p.payload().to_vec()),
+                    EchoIncPayloadAnsPayload::new(&data).ok().map(|p| p.payload().to_vec()),
+                    TxFramesCtrlReqPayload::new(&data).ok().map(|p| (p.len(), p.frame_type_override().ok())),
+                )
+            });
+            match r {
+                Err(p) => out.push(("C19|ctor|to-end-of-frame-payloads|panic".into(), format!("{len} bytes: {p}"))),
+                Ok((a, b, c)) => {
+                    let want = if len == 0 { None } else { Some(data.clone()) };
+                    if a != want {
+                        out.push(("C19|ctor|EchoIncPayloadReqPayload::new|round-trip".into(), format!("{len} bytes")));
+                    }
+                    if b != want {
+                        out.push(("C19|ctor|EchoIncPayloadAnsPayload::new|round-trip".into(), format!("{len} bytes")));
+                    }
+                    if c.map(|x| x.0) != want.as_ref().map(|d| d.len()) {
+                        out.push(("C19|ctor|TxFramesCtrlReqPayload::new|round-trip".into(), format!("{len} bytes")));
+                    }
+                }
+            }
+        }
+    }
     out
 }
 
 fn eval_case(c: &Case) -> Vec<(String, String)> {
+    if c.builder == "ctor" {
+        return eval_ctor(c.ops[0].0, c.ops[0].1);
+    }
     if c.builder == "McGroupStatusAns" {
         let nb = c.ops.iter().find(|o| o.0 == 0).map(|o| o.1 as u8);
         let pushes: Vec<(u8, u32)> = c.ops.iter().filter(|o| o.0 == 1).map(|o| ((o.1 >> 32) as u8, o.1 as u32)).collect();
@@ -1036,6 +1303,45 @@ pub fn run(tier: Tier, replay: Option<&str>) {
     ctx.tick(n);
     states.fetch_add(n, Ordering::Relaxed);
     transitions.fetch_add(n, Ordering::Relaxed);
+    // ---- validated constructors
+    let mut ctor_cases: Vec<(usize, u64)> = vec![];
+    for mask in 0..16u64 {
+        for tail in 0..=6u64 {
+            ctor_cases.push((0, mask | tail << 8));
+        }
+    }
+    for &v in &d24() {
+        for len in 0..=7u64 {
+            ctor_cases.push((1, v | len << 24));
+        }
+    }
+    for &m in &b16() {
+        for len in 0..=12u64 {
+            ctor_cases.push((2, m | len << 16));
+        }
+    }
+    for sel in 0..4u64 {
+        for d in 0..=3u64 {
+            let vals: Vec<u64> = match sel {
+                0 => d32(),
+                1 => d24().iter().map(|f| 3 | f << 8 | 0x50 << 32).chain((0..=255).map(|i| i | 8_681_000 << 8 | 0x52 << 32)).collect(),
+                2 => (0..=0x3FFFu64).filter(|x| th || x % 7 == 0 || x & 0xFF == 0xFF || x >> 8 == 0x3F).collect(),
+                _ => (0..16).collect(),
+            };
+            for v in vals {
+                ctor_cases.push((3, sel | d << 8 | v << 16));
+            }
+        }
+    }
+    for len in 0..=260u64 {
+        ctor_cases.push((4, len));
+    }
+    ctor_cases.par_iter().for_each(|&(k, x)| {
+        record("ctor", vec![(k, x)], eval_ctor(k, x));
+    });
+    ctx.tick(ctor_cases.len() as u64);
+    states.fetch_add(ctor_cases.len() as u64, Ordering::Relaxed);
+    transitions.fetch_add(ctor_cases.len() as u64, Ordering::Relaxed);
     // ---- streams of up to 3 commands
     let vals = [0u64, 7, 0x1FFF, 0xE0AA];
     let mut stream_cases = vec![vec![]];
@@ -1118,7 +1424,7 @@ pub fn run(tier: Tier, replay: Option<&str>) {
         ],
         "evaluations": ctx.evals(),
         "distinct_nontrivial": states.load(Ordering::Relaxed),
-        "rule": "each command builder is a state machine: states = setter-call sequences on a fresh builder (empty; every setter with its full value domain - all 256 / 65536 values for fields up to 16 bits incl. out-of-range ones, boundary and walking-bit sets for 24/32-bit fields; every ordered pair of setters incl. the same setter twice with full x boundary domains; boundary^3 triples in thorough), judged by build -> parse -> read every field against a plain field-value model (accept / refuse / truncate to the field; no neighbour changes). McGroupStatusAns.push: every group id 0..255 and all sequences of up to 5 items over ids 0..4. Streams of up to 3 commands through mac_commands_len / build_mac_commands parsed back. Text forms: all 65536 DevNonce, JoinNonce/NetId/DevAddr/McAddr ranges (all 2^24 / 2^32 in thorough), walking-bit / byte-pattern sets for 64-bit identifiers and 128-bit keys",
+        "rule": "each command builder is a state machine: states = setter-call sequences on a fresh builder (empty; every setter with its full value domain - all 256 / 65536 values for fields up to 16 bits incl. out-of-range ones, boundary and walking-bit sets for 24/32-bit fields; every ordered pair of setters incl. the same setter twice with full x boundary domains; boundary^3 triples in thorough), judged by build -> parse -> read every field against a plain field-value model (accept / refuse / truncate to the field; no neighbour changes). McGroupStatusAns.push: every group id 0..255 and all sequences of up to 5 items over ids 0..4. Validated constructors (Payload::new of fixed-length, variable-length and to-end-of-frame payloads, Frequency::new, ChannelMask::new) on built bytes with 0..6 trailing bytes and 1 byte short. Streams of up to 3 commands through mac_commands_len / build_mac_commands parsed back. Text forms: all 65536 DevNonce, JoinNonce/NetId/DevAddr/McAddr ranges (all 2^24 / 2^32 in thorough), walking-bit / byte-pattern sets for 64-bit identifiers and 128-bit keys",
         "builders": bs.iter().map(|b| b.name).collect::<Vec<_>>(),
         "text_forms_checked": text_n.load(Ordering::Relaxed),
         "exhaustive": true,
